@@ -30,7 +30,7 @@ CHUNK = 8
 OPTS = ['gc1', 'gc3', 'G', 'cov', 'prof', 'buf', 'warn', 'D', 'gcat', 'list', 'path2', 'profbr']
 ENDS = ['normal', 'fail', 'hookS', 'hookD', 'kbint', 'kbint_setup', 'x', 'sysexit_layer',
         'warnfilter', 'leave_replaced', 'settrace', 'layer_swaps', 'layer_unpaths',
-        'garbage_small', 'garbage_big', 'close_out']
+        'garbage_small', 'garbage_big', 'close_out', 'nested']
 
 
 def cases(tier, seed):
@@ -92,6 +92,10 @@ def build(end):
         q1 = 'settrace'
     elif end == 'leave_replaced':
         q1 = 'leave_replaced'
+    elif end == 'nested':
+        # a test that runs the test runner in-process (what the runner's own
+        # tests and those of its plug-ins do): two runs are active at once
+        q1 = 'nested_fail'
     elif end == 'close_out':
         # a test that closes the streams it finds in sys.stdout / sys.stderr
         q1 = 'close_out'
